@@ -99,6 +99,34 @@ def exn_code(ex):
     return 99
 
 
+FINGERPRINT_FILE = os.path.join(VERIF, "harness", "source_fingerprint.json")
+
+
+def source_fingerprint(src):
+    """sha256 of ast.dump of every module of the library (comments and layout do not count)"""
+    import ast
+    out = {}
+    d = os.path.join(src, "stingray")
+    for f in sorted(os.listdir(d)) if os.path.isdir(d) else []:
+        if f.endswith(".py"):
+            try:
+                out[f] = hashlib.sha256(ast.dump(ast.parse(open(os.path.join(d, f), encoding="utf-8").read())).encode()).hexdigest()
+            except (SyntaxError, ValueError, OSError):
+                out[f] = "unparsable"
+    return out
+
+
+def source_changed():
+    """modules whose code differs from the tree the machinery was last validated against (harness/source_fingerprint.json,
+    written by ./check --pin-source): when there are any, a quick run that found nothing searches further (see Check.run)"""
+    try:
+        pinned = json.load(open(FINGERPRINT_FILE))
+    except (OSError, ValueError):
+        return []
+    now = source_fingerprint(SRC)
+    return sorted(f for f in set(now) | set(pinned) if now.get(f) != pinned.get(f))
+
+
 class CaseTimeout(BaseException):
     """Raised by the watchdog when the implementation does not return on one case (a change that makes the code loop forever
     must end in a VIOLATION line, not in a check that never ends)."""
@@ -386,9 +414,12 @@ class Check:
         return self.props
 
     # -- step 3
-    def correspond(self, budget_tier):
+    def correspond(self, budget_tier, sample=None, merge=False, deadline=None):
+        """sample = n: draw n of the generated inputs at random (order kept); merge: add the counts to those of the previous pass"""
         mod = self.mod
-        ctx = Ctx(self.prop, budget_tier, self.seed, self.rng)
+        prev = (self.stats, self.lines, self.answers) if merge else None
+        rng = self.rng if sample is None else random.Random(self.seed + 7919)
+        ctx = Ctx(self.prop, budget_tier, self.seed, rng)
         inputs = []
         corpus_dir = os.path.join(VERIF, "corpus", self.prop)
         if os.path.isdir(corpus_dir):
@@ -398,10 +429,15 @@ class Check:
                         inputs.append(("corpus", inp))
         for stream, inp in mod.inputs(ctx):
             inputs.append((stream, inp))
+        if sample is not None and len(inputs) > sample:
+            # a random sample in random order, so that stopping at the deadline leaves an unbiased part of it
+            inputs = [inputs[i] for i in rng.sample(range(len(inputs)), sample)]
         lines, kept = [], []
         streams = {}
         hangs = []
         for stream, inp in inputs:
+            if deadline is not None and time.time() > deadline:
+                break
             case, hung = guarded_observe(mod, ctx, inp)
             if hung:
                 hangs.append((stream, inp, "", "", f"the implementation did not return within {CASE_TIMEOUT:.0f}s of CPU time on this input "
@@ -459,6 +495,19 @@ class Check:
                           branches={str(k): v for k, v in sorted(branches.items())}, tally=tally, samples=samples,
                           exhaustive_streams=sorted(getattr(ctx, "exhaustive", [])))
         self.lines, self.answers = lines, answers
+        if prev is not None:
+            st0, l0, a0 = prev
+            st = self.stats
+            st["evaluations"] += st0.get("evaluations", 0)
+            st["distinct_nontrivial"] += st0.get("distinct_nontrivial", 0)
+            for k, v in st0.get("tally", {}).items():
+                st["tally"][k] = st["tally"].get(k, 0) + v
+            st["streams"] = dict(st0.get("streams", {}), **{k + " (further search)": v for k, v in st["streams"].items()})
+            for k, v in st0.get("branches", {}).items():
+                st["branches"][k] = st["branches"].get(k, 0) + v
+            st["samples"] = st0.get("samples", []) or st["samples"]
+            st["exhaustive_streams"] = st0.get("exhaustive_streams", [])
+            self.lines, self.answers = l0 + lines, a0 + answers
         return first_viol, first_corr
 
     def write_replay(self, name, payload):
@@ -471,7 +520,18 @@ class Check:
         props = self.build()
         proof_broken = not props["ok"]
         budget = self.tier if not proof_broken else "thorough"
+        self.stats, self.lines, self.answers = {}, [], []
         first_viol, first_corr = self.correspond(budget)
+        # The library's code differs from the tree this machinery was validated against and the usual budget found nothing:
+        # search further - a random sample (three times the usual number of cases) of the THOROUGH tier's inputs, other seed.
+        self.changed_modules = source_changed()
+        self.escalated = 0
+        if budget == "quick" and self.changed_modules and not first_viol and not first_corr and not os.environ.get("VERIF_NO_ESCALATION"):
+            n0 = self.stats.get("evaluations", 0)
+            spent = time.time() - self.t0
+            first_viol, first_corr = self.correspond("thorough", sample=max(3 * n0, 300), merge=True,
+                                                     deadline=time.time() + max(45.0, 1.5 * spent))
+            self.escalated = self.stats.get("evaluations", 0) - n0
         out = []
         # known findings
         for k, (f, inp) in sorted(self.known_seen.items()):
@@ -552,6 +612,8 @@ class Check:
             exhaustive_streams=self.stats.get("exhaustive_streams", []),
             known_findings_seen=[f["id"] for _, (f, _) in sorted(self.known_seen.items())],
             proof_broken=proof_broken,
+            source_modules_changed=getattr(self, "changed_modules", []),
+            further_search_cases=getattr(self, "escalated", 0),
         )
         if proof_broken:
             # a broken proof discharges nothing: drop the proof-level keys so the generic counts apply
@@ -648,6 +710,10 @@ def main(argv):
     import importlib
     if argv and argv[0] == "--setup":
         return setup()
+    if argv and argv[0] == "--pin-source":
+        json.dump(source_fingerprint(SRC), open(FINGERPRINT_FILE, "w"), indent=1)
+        print("pinned", FINGERPRINT_FILE)
+        return 0
     if len(argv) >= 2 and argv[1] == "--build":
         # build one property's judge and theorem file under the build lock; print errors
         sys.path.insert(0, os.path.join(VERIF, "harness"))
